@@ -88,7 +88,13 @@ mutants)
     k=$(modkey $wt); rm -f "$HERE"/build/*."$k" "$HERE"/build/go."$k".*
     git -C /repo worktree remove --force $wt
   done
-  mv "$res.tmp" "$res"
+  if [ ${#names[@]} -gt 0 ] && [ -f "$res" ]; then
+    # a partial run: replace only the lines of the mutants that were run
+    for n in "${names[@]}"; do grep -v "^$n: " "$res" > "$res.keep" || true; mv "$res.keep" "$res"; done
+    cat "$res.tmp" >> "$res"; sort -o "$res" "$res"; rm -f "$res.tmp"
+  else
+    mv "$res.tmp" "$res"
+  fi
   [ $fail -eq 0 ] && echo "mutants: all caught" || { echo "mutants: some missed"; exit 1; }
   ;;
 *) echo "usage: selftest.sh determinism|mutants"; exit 2;;
